@@ -9,7 +9,8 @@ REQ_METHODS = {'Shutdown': 'shutdown', 'SemanticTokensFullRequest': 'textDocumen
 NOTIF_METHODS = {'Exit': 'exit', 'DidOpenTextDocument': 'textDocument/didOpen', 'DidChangeTextDocument': 'textDocument/didChange'}
 MORE_NOTIF_METHODS = {'Cancel': '$/cancelRequest', 'DidCloseTextDocument': 'textDocument/didClose', 'DidSaveTextDocument': 'textDocument/didSave', 'Initialized': 'initialized'}
 
-def mkstruct(P, name, **kw):
+def mkstruct(P, _struct_name, **kw):
+    name = _struct_name
     fs = [f for f, _ in P.structs.get(name, [])]
     if not fs: raise Unsupported('layout of %s unknown' % name)
     for k in kw:
